@@ -16,6 +16,19 @@ Correspondence:
               compared with the `pump` model.
 * `live`      both backends behind the real `start_server` on loopback sockets: plaintext probes and
               old-version clients.
+* `client`    the real GeminiClient (every public coroutine method found on the class: get, upload, delete, ...)
+              against a scripted loopback peer whose versions change from step to step; compared with `tlsvers`.
+* `startup`   the configuration space of the start-up paths: {start_server(...), `nauyaca serve --config`} x
+              {auto-generated, supplied, supplied-below-the-security-level (RSA-1024, SHA-1)} certificates x
+              require_client_cert x certificate_auth configurations (none / no rules / exempting rules only /
+              requiring rules / fingerprint lists); the listener the real start-up code builds is probed over a
+              loopback socket with plaintext, old-version clients (with and without a client certificate) and a
+              modern control (harness/sim/tls_startup.py).  Oracle only (no model): whatever start-up does with a
+              configuration - refuse it or serve it - no plaintext reaches a handler and nothing below TLS 1.2 completes.
+* `cli`       every leaf command of the command-line interface, enumerated from the click tree of the working
+              tree (a command the harness has no recipe for gets arguments synthesised from its declared
+              parameters and runs in a process of its own), against the scripted peer capped at TLS 1.0/1.1, with
+              an empty / matching / conflicting pin store; compared with `tlsvers` for the commands with a recipe.
 """
 from __future__ import annotations
 
@@ -45,13 +58,18 @@ LEVEL_NOTE = ("version negotiation and record parsing are OpenSSL's and are not 
               "only exercised (thorough tier), not modelled")
 TECHNIQUE = ("Lean 4 theorems over a table generated from the real context objects (decide + negotiate_ge_min) and an invariant proof over the "
              "pump model (Pre/Dead states, induction over arbitrary event lists); differential testing of the real contexts / the real "
-             "TLSServerProtocol against the model with permissive memory-BIO peers and control contexts; loopback probes of both backends")
+             "TLSServerProtocol against the model with permissive memory-BIO peers and control contexts; loopback probes of both backends; "
+             "exhaustive small-scope enumeration of start-up configurations (entry point x certificate kind x require_client_cert x certificate_auth shape) "
+             "and of the CLI's commands (enumerated from the source) against scripted loopback peers, judged by the property's oracle")
 ASSUMPTIONS = [
     "OpenSSL negotiates the highest protocol version enabled on both sides, or none (Misc.negotiate); not verified, exercised on every run",
     "SSLv3 is not compiled into either OpenSSL in this sandbox (system 3.0.x for ssl, the cryptography wheel's for PyOpenSSL): ranges that contain only SSLv3 cannot be offered by any peer here; recorded as Gen.sslv3Available = false and as class 'ssl3-only' in the distribution",
     "the security level is OpenSSL/system configuration, not nauyaca's: besides the contexts as built, every path is probed with its security level lowered to 0 so that the protocol-version setting is the only barrier (without that, TLS 1.0/1.1 are refused by OpenSSL 3's default level even when no minimum version is set, and a missing minimum would be invisible)",
     "each old-version probe runs next to a control context of the same kind (TLS 1.0 enabled, level 0) which must complete the old version: a control that cannot is a disagreement with the model, i.e. a broken obligation, not a silent pass",
     "stdlib backend: plaintext handling and the 60 s handshake timeout are asyncio.sslproto's; exercised over loopback sockets only",
+    "start-up configurations (family startup) and command-line commands (family cli) are exercised behaviourally over loopback sockets and judged by the oracle alone; the Lean table covers the context-construction paths, not the glue that decides which listener a configuration gets",
+    "certificates below the security level are RSA-1024 keys and SHA-1 signatures (made with pyOpenSSL's legacy X509 API, since `cryptography` refuses to sign with SHA-1); a server that refuses to start with them satisfies the property",
+    "`serve` is the one command of the CLI that is not run as a client (it is the server: family startup); every other leaf command found in the source is run against the old-version peer",
 ]
 
 _TLS_LEAN = core.LEAN / "NauyacaVerif" / "Gen" / "Tls.lean"
@@ -80,7 +98,7 @@ def harness_cert_b() -> tuple[bytes, bytes]:
     """a second certificate for the same name (another key): a renewed - or somebody else's - certificate"""
     global _HARNESS_CERT_B
     if _HARNESS_CERT_B is None:
-        _HARNESS_CERT_B = tls_peer.make_cert("localhost")
+        _HARNESS_CERT_B = tls_startup.named_cert("harness B")
     return _HARNESS_CERT_B
 
 
@@ -546,14 +564,27 @@ class ClientHistories(Family):
     the peer: every completed handshake with its version and the request bytes that followed."""
 
     name = "client"
-    parallel = False
-    quick_n = 110
+    quick_n = 160
     thorough_n = 900
+
+    @staticmethod
+    def _ops() -> list[str]:
+        """the public coroutine methods of GeminiClient, read off the class in the working tree: every way the
+        library opens a connection on behalf of its caller (get, upload, delete, and whatever is added later)"""
+        import inspect
+
+        try:
+            from nauyaca.client.session import GeminiClient
+
+            ops = sorted(n for n, _f in inspect.getmembers(GeminiClient, inspect.iscoroutinefunction) if not n.startswith("_"))
+        except Exception:  # noqa: BLE001
+            ops = []
+        return ops or ["get", "upload"]
 
     def _shapes(self):
         out = []
         for mode in CLIENT_MODES:
-            for op in ("get", "upload"):
+            for op in self._ops():
                 for old in ((1, 2), (1, 1)):
                     out.append((mode, op, [(old, False)]))                          # unknown host offers only old versions
                     out.append((mode, op, [((3, 4), False), (old, False)]))         # visited (pinned) before, then downgraded
@@ -568,13 +599,14 @@ class ClientHistories(Family):
             yield {"mode": mode, "op": op, "reuse_client": count % 2 == 0,
                    "steps": [{"lo": r[0], "hi": r[1], "reset_first": rf} for r, rf in steps]}
             count += 1
+        ops = self._ops()
         while count < n:
             k = rng.randint(1, 4)
             steps = []
             for _ in range(k):
                 lo, hi = rng.choice(OLD_RANGES if rng.random() < 0.55 else MODERN_RANGES)
                 steps.append({"lo": lo, "hi": hi, "reset_first": rng.random() < 0.3})
-            yield {"mode": rng.choice(list(CLIENT_MODES)), "op": rng.choice(["get", "get", "upload"]), "reuse_client": rng.random() < 0.5, "steps": steps}
+            yield {"mode": rng.choice(list(CLIENT_MODES)), "op": rng.choice(["get"] + ops), "reuse_client": rng.random() < 0.5, "steps": steps}
             count += 1
 
     def impl(self, case):
@@ -594,7 +626,7 @@ class ClientHistories(Family):
             cf, kf = os.path.join(tmp, "c.pem"), os.path.join(tmp, "k.pem")
             Path(cf).write_bytes(c)
             Path(kf).write_bytes(k)
-            peer = tls_live.VersionPeer(cf, kf)
+            peer = tls_startup.CertPeer({"A": (cf, kf)})   # VersionPeer with a close() that does not wait for the accept poll
             url = f"gemini://localhost:{peer.port}/page"
             mode = case["mode"]
 
@@ -629,9 +661,11 @@ class ClientHistories(Family):
                     try:
                         if case["op"] == "get":
                             r = await client.get(url)
-                        else:
+                        elif case["op"] == "upload":
                             r = await client.upload(url, b"uploaded-content-" + bytes([65 + i]) * 20, mime_type="text/plain")
-                        outcomes.append(f"ok:{r.status}")
+                        else:   # delete(url), or a method this harness has no recipe for: the URL is all it is given
+                            r = await getattr(client, case["op"])(url)
+                        outcomes.append(f"ok:{getattr(r, 'status', '?')}")
                     except Exception as e:  # noqa: BLE001
                         outcomes.append("error:" + type(e).__name__)
                     await asyncio.sleep(0)
@@ -682,7 +716,7 @@ class ClientHistories(Family):
     def key(self, case, obs):
         def cls(s):
             return ("old" if s["hi"] <= 2 else "modern" if s["lo"] >= 3 else "old+modern") + ("/reset-first" if s["reset_first"] else "")
-        # (get and upload alternate uniformly; at most 40 classes are printed)
+        # (the operations alternate uniformly; at most 40 classes are printed)
         return f"{case['mode']}: " + " > ".join(cls(s) for s in case["steps"][:2]) + (" > ..." if len(case["steps"]) > 2 else "")
 
 
@@ -728,8 +762,8 @@ class Startup(Family):
     property; one that starts must not serve below TLS 1.2 and must not serve without TLS."""
 
     name = "startup"
-    quick_n = 120
-    thorough_n = 1920
+    quick_n = 240
+    thorough_n = 2400
 
     def _probes(self, rng: random.Random, many: bool) -> list[dict]:
         ps = [{"kind": "plain", "chunks": [PLAIN_LINES[0].hex()]}]
@@ -747,15 +781,13 @@ class Startup(Family):
         ps.append({"kind": "tls", "lo": rng.choice([1, 3]), "hi": 4, "cc": rng.random() < 0.5})
         return ps
 
-    def _product(self, full: bool) -> list[dict]:
+    def _product(self) -> list[dict]:
         out = []
-        i = 0
         for cert in tls_startup.CERT_KINDS:
             for rcc in (False, True):
                 for shape, auth in AUTH_SHAPES.items():
-                    for entry in (("api", "cli") if full else (("api", "cli")[i % 2],)):
+                    for entry in ("api", "cli"):
                         out.append({"entry": entry, "cert": cert, "rcc": rcc, "shape": shape, "auth": auth})
-                    i += 1
         random.Random(20).shuffle(out)
         # the boundary of the property first: configurations in which nothing asks for a client certificate
         # although certificate_auth is configured, and certificates OpenSSL's default level would refuse
@@ -763,10 +795,10 @@ class Startup(Family):
         return out
 
     def gen(self, rng: random.Random, n: int):
-        full = n >= 100
+        many = n >= 100   # thorough tier: every old range against every configuration
         count = 0
-        for cfg in self.share(self._product(full)):
-            yield dict(cfg, probes=self._probes(rng, full))
+        for cfg in self.share(self._product()):
+            yield dict(cfg, probes=self._probes(rng, many))
             count += 1
         while count < n:
             rules = []
@@ -997,7 +1029,8 @@ class CliCommands(Family):
                 from nauyaca.security.tofu import TOFUDatabase
 
                 try:
-                    return sorted([str(h["hostname"]), int(h["port"]), str(h["fingerprint"])[-16:]] for h in TOFUDatabase().list_hosts())
+                    return sorted([str(h["hostname"]), "<port>" if int(h["port"]) == peer.port else int(h["port"]), str(h["fingerprint"])[-16:]]
+                                  for h in TOFUDatabase().list_hosts())
                 except Exception as e:  # noqa: BLE001
                     return [["?", 0, type(e).__name__]]
 
